@@ -205,6 +205,10 @@ fn mutate(t: &mut Tape, ty: &BT) -> BT {
     }
 }
 
+pub fn strip_pub(t: &BT) -> BT {
+    strip(t)
+}
+
 /// keep answers inside the fragment the matcher understands: no fn/dyn binders, no dangling outer variables
 fn strip(t: &BT) -> BT {
     fn l(x: &BL) -> BL {
